@@ -669,7 +669,7 @@ func TestVerifC18Strings(t *testing.T) {
 		midPorts = append(midPorts, "80\n#"+strings.Repeat("x", b-1)+"8080\n443\n", "80\n#"+strings.Repeat("-", b-2)+" 22\n", strings.Repeat(" ", b-2)+"8080\n", "80\n"+strings.Repeat(" ", b)+"\n443", "7#"+strings.Repeat("9", b+3)+"\n")
 		midExcl = append(midExcl, "10.0.0.0/8\n#"+strings.Repeat("x", b-1)+"11.0.0.0/8\n", strings.Repeat(" ", b-3)+"10.1.2.3\n", "10.0.0.1 #"+strings.Repeat("y", b-10)+"10.0.0.2\n")
 	}
-	each("portsfile", append(midPorts, []string{"", "\n", "#\n", "80", "80\n", "80\r\n", "80\n443\n", "80 # web\n", "#80\n443", "80\n\n\n443", " 80 \n", "\t80\n", "80,443\n", "1-2-3\n", "80\n" + longLine + "\n443\n", "80" + longLine + "\n443\n", "80\n# " + longLine + "\n443\n", "80\x00\n", "80\n65536\n", "1-65535\n0\n"}...),
+	each("portsfile", append(midPorts, []string{"\t\n", " \t \n", "\t# note\n80\n", "\v\n80\n", "\f\n", "80 443\n", "80\t443\n", "80\n \t\n443\n", "", "\n", "#\n", "80", "80\n", "80\r\n", "80\n443\n", "80 # web\n", "#80\n443", "80\n\n\n443", " 80 \n", "\t80\n", "80,443\n", "1-2-3\n", "80\n" + longLine + "\n443\n", "80" + longLine + "\n443\n", "80\n# " + longLine + "\n443\n", "80\x00\n", "80\n65536\n", "1-65535\n0\n"}...),
 		func() string {
 			f := c18randFileOf(rng, func() string { return c18randPortEntry(rng) })
 			if rng.Intn(3) == 0 {
@@ -680,7 +680,7 @@ func TestVerifC18Strings(t *testing.T) {
 			}
 			return f
 		}, func(s string, st *c18stats) { c18judgePortsFile(run, s, st) })
-	each("exclude", append(midExcl, []string{"", "\n", "10.0.0.0/8", "10.0.0.0/8\n", "10.0.0.1\n", "10.0.0.0/8 # rfc1918\n172.16.0.0/12\n192.168.0.0/16\n", "0.0.0.0/0\n", "255.255.255.255/32\n", "10.0.0.1/24\n", "::1\n", "::/0\n", "10.0.0.0/33\n", "10.0.0.0/-1\n",
+	each("exclude", append(midExcl, []string{"\t\n", " \t \n", "\t# note\n10.0.0.0/8\n", "\v\n", "10.0.0.0/8 172.16.0.0/12\n", "10.0.0.0/8\t172.16.0.0/12\n", "10.0.0.1\n\t\n10.0.0.2\n", "", "\n", "10.0.0.0/8", "10.0.0.0/8\n", "10.0.0.1\n", "10.0.0.0/8 # rfc1918\n172.16.0.0/12\n192.168.0.0/16\n", "0.0.0.0/0\n", "255.255.255.255/32\n", "10.0.0.1/24\n", "::1\n", "::/0\n", "10.0.0.0/33\n", "10.0.0.0/-1\n",
 		"10.0.0\n", "10.0.0.0.0\n", "10.0.0.256\n", "10.0.0.0/8\n" + longLine + "\n11.0.0.0/8\n", "10.0.0.0/8\n#" + longLine + "\n11.0.0.0/8\n", "10.0.0.0/8,11.0.0.0/8\n", "10.0.0.0 /8\n", "localhost\n", "10.0.0.0/8\r\n11.0.0.0/8\r\n"}...),
 		func() string {
 			f := c18randFileOf(rng, func() string { return c18randCIDR(rng) })
